@@ -19,6 +19,14 @@ func TestZZReplayC12(t *testing.T) {
 		`foo{b="1"} and ignoring(b) sum without(b) (bar)`,
 		`foo{b="1"} * ignoring(b) group_left() sum without(b) (bar)`,
 		`foo{b="1"} unless ignoring(b) sum without(b) (bar)`,
+		// obligation utils.parseBinOps#assert:call-canJoin (canJoin is given the operand as analysed), fixed by 42c038d
+		`sum(foo) / on(a) sum(bar)`,
+		`sum without(a)(foo) and on(a) sum without(a)(bar)`,
+		// group_left(b) removes b when the one side lacks it (unguaranteeCopiedLabels), fixed by f95d252
+		`(foo{b="1"} * on(a) group_left(b) sum by(a)(bar)) * sum by(a)(baz)`,
+		// KNOWN FINDING (not repaired, the suite pins it): utils.parseBinOps#assert1/2:call-calculateStaticReturn
+		`vector(1) > bool vector(2)`,
+		`vector(1) > bool ignoring(x) vector(2)`,
 		// obligation utils.removeFromSlice#ensures (modifiesNone): removing a label must not disturb sibling copies
 		`(sum without(a) (foo{a="1",b="2"} + scalar(x or y))) and sum by(b) (bar)`,
 	} {
